@@ -118,8 +118,18 @@ Definition query_ok (enabled : bool) (t : list entry) (q : string * N * obs * ob
     the suffix of the lower-cased name asked: ".down" the exchange fails;
     ".example" NXDOMAIN, ".fail" SERVFAIL, ".nodata" NOERROR, all three with
     an empty answer section; ".multi" two address records and one TXT
-    record for a TXT question; else one A 9.9.9.9 / one AAAA 2001:db8::9 for
-    the name asked, nothing for other types. *)
+    record for a TXT question; for an A / AAAA question ".cdn" / ".cdn2" /
+    ".cdn3" a CNAME chain of the upstream's own (1 / 2 / 3 records) before
+    the address, ".cnameonly" a CNAME and no address, ".oddorder" the address
+    before a CNAME, ".otherfirst" a TXT record before the address; else one
+    A 9.9.9.9 / one AAAA 2001:db8::9 for the name asked, nothing for other
+    types. *)
+Definition edge1 := bs "edge1.cdn.net".
+Definition edge2 := bs "edge2.cdn.net".
+Definition edge3 := bs "edge3.cdn.net".
+Definition ups_addr (qt : N) (owner : bytes) : rr :=
+  if qt =? qA then RR_A owner 151587081 else RR_AAAA owner 42540766411282592856903984951653826569.
+
 Definition ups (name : bytes) (qt : N) : option (N * list rr) :=
   let l := to_lower name in
   if has_suffix l (bs ".down") then None
@@ -127,6 +137,18 @@ Definition ups (name : bytes) (qt : N) : option (N * list rr) :=
   else if has_suffix l (bs ".fail") then Some (2, [])
   else if has_suffix l (bs ".nodata") then Some (0, [])
   else if (qt =? 16) && has_suffix l (bs ".multi") then Some (0, [RR_OTHER name 16])   (* TXT *)
+  (* round 8: the shape of the answer to an A / AAAA question *)
+  else if is_addr_q qt && has_suffix l (bs ".cdn") then
+    Some (0, [RR_CNAME name edge1; ups_addr qt edge1])
+  else if is_addr_q qt && has_suffix l (bs ".cdn2") then
+    Some (0, [RR_CNAME name edge1; RR_CNAME edge1 edge2; ups_addr qt edge2])
+  else if is_addr_q qt && has_suffix l (bs ".cdn3") then
+    Some (0, [RR_CNAME name edge1; RR_CNAME edge1 edge2; RR_CNAME edge2 edge3; ups_addr qt edge3])
+  else if is_addr_q qt && has_suffix l (bs ".cnameonly") then Some (0, [RR_CNAME name edge1])
+  else if is_addr_q qt && has_suffix l (bs ".oddorder") then
+    Some (0, [ups_addr qt name; RR_CNAME name edge1])
+  else if is_addr_q qt && has_suffix l (bs ".otherfirst") then
+    Some (0, [RR_OTHER name 16; ups_addr qt name])
   else if qt =? qA then
     Some (0, RR_A name 151587081 ::                                          (* 9.9.9.9 *)
              (if has_suffix l (bs ".multi") then [RR_A name 151587082] else []))
